@@ -8,12 +8,73 @@ from props import pkgcheck
 
 ID = "C13"
 LEVEL = "other"
-CONTRACT_MODULES = []
+CONTRACT_MODULES = ["contracts.grouping"]
 EXPLANATION = ("Per generated package of the shape corpus, an exact (finite) comparison of the emitted code: for every tag, client class, Protocol and "
                "mock class expose the same operation methods with AST-equal signatures (names, order, kinds, defaults, annotations, return "
                "annotation, coroutine vs async-generator nature); every mock method body raises NotImplementedError; MockAPIClient exposes "
-               "the same tag properties as APIClient. No function-level contract of the generator is discharged for this property.")
-TRUSTED = ["comparison is syntactic on the emitted modules (ast.dump of the argument list and returns annotation)"]
+               "the same tag properties as APIClient. Under contract: the tag grouping. The endpoints emitter and the mocks emitter group "
+               "(operation, tag) pairs in separate nested loops; both inner-loop bodies satisfy the SAME statement contract (the pair is appended to the "
+               "bucket of normalize_tag_key(tag), its spelling to the key's candidates, every other bucket unchanged), so from empty maps over the same "
+               "pair sequence they build equal maps; that the two outer loops enumerate the same sequence and rank spellings with the same function is "
+               "an exact AST comparison of the real sources (EXTRA). The signature clause (Protocol / mock text derived by line rewriting) is bounded only.")
+TRUSTED = ["comparison is syntactic on the emitted modules (ast.dump of the argument list and returns annotation)",
+           "induction from the per-iteration contract to equality of the final maps is a meta-argument (same contract, same pair sequence, same initial maps)",
+           "the Protocol / mock line-rewriting transformers are not under contract"]
+
+
+def exact_grouping_frame(tier, seed):
+    """what the statement contracts do not cover, decided exactly on the real sources: both grouping loops enumerate `<op>.tags or ["default"]` of every
+    operation in order, start from empty maps, and pick the canonical spelling with textually identical ranking functions"""
+    import inspect
+    import pyopenapi_gen.emitters.endpoints_emitter as ee
+    import pyopenapi_gen.emitters.mocks_emitter as me
+    import pyopenapi_gen.visit.client_visitor as cv
+
+    def fn(mod, qual):
+        tree = ast.parse(inspect.getsource(mod))
+        cur = tree
+        for part in qual.split("."):
+            cur = next(n for n in ast.walk(cur) if isinstance(n, (ast.FunctionDef, ast.ClassDef)) and n.name == part)
+        return cur
+    e_fn, m_fn = fn(ee, "EndpointsEmitter.emit"), fn(me, "MocksEmitter._group_operations_by_tag")
+
+    def tag_loop(f):
+        inner = next(n for n in ast.walk(f) if isinstance(n, ast.For) and ast.unparse(n.target) == "tag")
+        outer = next(n for n in ast.walk(f) if isinstance(n, ast.For) and inner in ast.walk(n) and n is not inner)
+        return outer, inner
+
+    def norm(node, opname):
+        txt = ast.unparse(node)
+        return txt.replace("DEFAULT_TAG", repr(ee.DEFAULT_TAG)).replace(opname, "OP").replace("'", '"')
+    out = []
+    (eo, ei), (mo, mi) = tag_loop(e_fn), tag_loop(m_fn)
+    # the endpoints loop binds `tags = op.tags or [DEFAULT_TAG]` first
+    e_iter = next((ast.unparse(s.value) for s in eo.body if isinstance(s, ast.Assign) and ast.unparse(s.targets[0]) == ast.unparse(ei.iter)), ast.unparse(ei.iter))
+    a = e_iter.replace("DEFAULT_TAG", repr(ee.DEFAULT_TAG)).replace(ast.unparse(eo.target), "OP").replace("'", '"')
+    b = norm(mi.iter, ast.unparse(mo.target))
+    ok1 = a == b and ast.unparse(eo.iter) == "operations" and ast.unparse(mo.iter) == "spec.operations"
+    out.append({"id": "exact:grouping:same-pair-sequence", "status": "holds" if ok1 else "violated", "exhaustive": True,
+                "detail": f"endpoints: for {ast.unparse(eo.target)} in {ast.unparse(eo.iter)}: for tag in {a}; mocks: for {ast.unparse(mo.target)} in {ast.unparse(mo.iter)}: for tag in {b}",
+                "witness": None})
+
+    def body_text(f):
+        return "\n".join(ast.unparse(s) for s in f.body if not (isinstance(s, ast.Expr) and isinstance(s.value, ast.Constant)) and not isinstance(s, (ast.Import, ast.ImportFrom)))
+    scores = {"endpoints": body_text(fn(ee, "EndpointsEmitter.emit.tag_score")), "mocks": body_text(fn(me, "_tag_score"))}
+    try:
+        scores["client"] = body_text(next(n for n in ast.walk(ast.parse(inspect.getsource(cv))) if isinstance(n, ast.FunctionDef) and n.name == "tag_score"))
+    except StopIteration:
+        pass
+    ok2 = len(set(scores.values())) == 1
+    out.append({"id": "exact:grouping:same-spelling-rank", "status": "holds" if ok2 else "violated", "exhaustive": True,
+                "detail": f"tag_score bodies textually identical in {sorted(scores)}" if ok2 else f"tag_score bodies differ: { {k: v[:80] for k, v in scores.items()} }", "witness": None})
+    picks = {"endpoints": any("max(candidates, key=tag_score)" in ast.unparse(n) for n in ast.walk(e_fn)),
+             "mocks": any("max(tag_key_to_candidates[key], key=_tag_score)" in ast.unparse(n) for n in ast.walk(m_fn))}
+    out.append({"id": "exact:grouping:canonical-is-max-rank", "status": "holds" if all(picks.values()) else "violated", "exhaustive": True,
+                "detail": f"canonical spelling = max(candidates of the key, key=rank) in both emitters: {picks}", "witness": None})
+    return out
+
+
+EXTRA = [exact_grouping_frame]
 
 
 def _sig(fn):
@@ -120,8 +181,8 @@ BOUNDED = [bounded_surface_parity]
 
 MANIFEST = {
     "category": "other",
-    "text": "Exact syntactic comparison of the three emitted surfaces per tag over the shape corpus. No generator function is under a discharged "
-            "contract for this property (the mock/Protocol transformers are line-rewriting loops outside the engine's practical reach).",
-    "note": "Bounded stand-in only for the signature clause; listed under not_applicable for the deductive technique in DESIGN.md §10.",
-    "technique": "bounded exact AST comparison of emitted code over an enumerated shape corpus (stand-in; no obligations discharged)",
+    "text": "The tag grouping of endpoints and mocks is under one shared statement contract (both loops proved against it) plus exact source comparison of "
+            "the loop frames; the three emitted surfaces are compared exactly per tag over the shape corpus.",
+    "note": "The signature clause (Protocol / mock text derived by line rewriting) is a bounded stand-in only.",
+    "technique": "contract-based deductive verification (shared statement contract on both grouping loops, z3) + exact source comparison + bounded exact AST comparison of emitted code",
 }
